@@ -53,6 +53,15 @@ func rebase(p *Project, base string) Project {
 	for _, d := range p.Dirs {
 		q.Dirs = append(q.Dirs, mv(d))
 	}
+	for _, sp := range p.Special {
+		q.Special = append(q.Special, mv(sp))
+	}
+	for l, t := range p.Links {
+		if q.Links == nil {
+			q.Links = map[string]string{}
+		}
+		q.Links[mv(l)] = mv(t)
+	}
 	q.Root = mv(p.absRoot())
 	return q
 }
